@@ -325,7 +325,7 @@ fn gen(rng: &mut Rng) -> Scen {
         cmds.sort_by_key(|c| c.0);
         script.push(cmds);
     }
-    Scen {
+    let mut s = Scen {
         seed: rng.u64(),
         nnodes,
         auto_accept: (0..nnodes).map(|_| rng.bool()).collect(),
@@ -337,7 +337,21 @@ fn gen(rng: &mut Rng) -> Scen {
         storm_ms,
         policy: (0..nnodes).map(|_| *rng.pick(&[Policy::Accept, Policy::Accept, Policy::Mixed, Policy::Mixed, Policy::Reject, Policy::Delayed(200), Policy::Never])).collect(),
         script,
+    };
+    // directed family (1 in 6): a validation prompt left unanswered across a connection loss and
+    // reconnect, answered late (in the quiesce phase) while the new connection is up
+    if rng.chance(0.17) {
+        s.policy[1] = Policy::Never;
+        s.auto_accept[1] = false;
+        let kill_at = rng.range(500, 1100) as u64;
+        s.script[0].push((150, Kind::Open(1)));
+        s.script[0].push((kill_at, Kind::Kill(1)));
+        if rng.bool() {
+            s.script[0].push((kill_at + 350, Kind::Open(1)));
+        }
+        s.script[0].sort_by_key(|c| c.0);
     }
+    s
 }
 
 fn last_state(log: &[(u64, Instant, L)], peer: usize) -> (bool, bool) {
@@ -917,7 +931,7 @@ pub fn run(ctx: &Ctx, prop: &'static str) -> Report {
         if ctx.has_arg("--single") { vec![s] } else { vec![s.clone(), s.clone(), s] }
     } else {
         let mut rng = ctx.rng("c11");
-        let n = ctx.pick(64, 1600) / ctx.nshards;
+        let n = ctx.pick(96, 1600) / ctx.nshards;
         (0..n)
             .map(|_| {
                 let gs = rng.u64();
